@@ -5,12 +5,13 @@ Section S.
 Variable c : cfg.
 Variable wake : state -> nat -> bool.
 Hypothesis LL : lossless c.
+Hypothesis NB : stalebreak c = false.
 
 (* safety half: an owed message has been delivered or is still on its way to s *)
 Lemma owed_delivered_or_pending : forall st s m, reach c wake st -> live st = true ->
   ~ In s (unsubcalled st) -> In m (owed st s) -> In m (rcv st s) \/ pend_for st s m.
 Proof.
-  intros st s m R LV Hn Ho. destruct (ie_owed _ (inve_reach c wake LL st R) LV s m Hn Ho) as [X|X]; auto.
+  intros st s m R LV Hn Ho. destruct (ie_owed _ (inve_reach c wake LL NB st R) LV s m Hn Ho) as [X|X]; auto.
   left. unfold log in X. destruct LL as [B0 _].
   rewrite (io_ch0 _ _ (invo_reach c wake st R) B0 s), app_nil_r in X. auto.
 Qed.
@@ -43,7 +44,7 @@ End S.
 Definition queue_cfg : cfg := mkCfg 1 false 0 false None PBlock true 0 0 false false.
 
 Definition inflight_statement : Prop :=
-  forall c wake st s m, lossless c -> wf_cfg c -> sigbuf c = true -> skipstop c = false ->
+  forall c wake st s m, lossless c -> stalebreak c = false -> wf_cfg c -> sigbuf c = true -> skipstop c = false ->
     (forall st w, wk st w = WParked -> (dist st <> [] \/ live st = false) -> wake st w = true) ->
     reach c wake st -> quiescent c wake st -> live st = true ->
     In m (owed st s) -> In m (rcv st s).
@@ -72,6 +73,7 @@ Proof.
   assert (X : In 7 (rcv inflight_final 0)).
   { apply (S queue_cfg wake_exact inflight_final 0 7).
     - repeat split; auto.
+    - reflexivity.
     - intros _; discriminate.
     - reflexivity.
     - reflexivity.
@@ -235,3 +237,66 @@ Example output_filter_repaired :
   | None => False
   end.
 Proof. vm_compute. auto. Qed.
+
+(* ---------- why a key the Range yielded but that is no longer subscribed must be SKIPPED, never end the
+   dispatch.  /repo's loop sends to every key the Range yields (stalebreak = false).  In the variant
+   that re-checks the key and leaves the loop at the first stale one (stalebreak = true, `break` where
+   `continue` is meant) a subscriber that stays subscribed and keeps receiving loses the message:
+   subscribers 0, 1, 2; one message; the dispatch is blocked on 0; 1 unsubscribes; the Range yields the
+   stale key 1 and the loop ends; 2 never gets the message although it is owed to it. *)
+Definition stalebreak_cfg : cfg := mkCfg 1 false 0 false None PBlock true 0 0 false true.
+
+Definition stalebreak_schedule : list event :=
+  [ECall 0 (OpSub 0); ESubSend 0; ECall 1 (OpSub 1); ESubSend 1; ECall 2 (OpSub 2); ESubSend 2;
+   ECall 3 (OpPub 7); EPub 3; ELoopPush; ETake 0; ERangeNext 0 0;
+   ECall 1 (OpUnsub 1); EUnsubSend 1; ESend 0 0; ERangeStale 0 1; EEnd 0; EPark 0].
+
+Definition stalebreak_final : state := Eval vm_compute in
+  match run stalebreak_cfg wake_exact init stalebreak_schedule with Some st => st | None => init end.
+
+Lemma stale_key_break_refuted :
+  run stalebreak_cfg wake_exact init stalebreak_schedule = Some stalebreak_final /\
+  quiescent stalebreak_cfg wake_exact stalebreak_final /\ live stalebreak_final = true /\
+  In 2 (subs stalebreak_final) /\ ~ In 2 (unsubcalled stalebreak_final) /\
+  owed stalebreak_final 2 = [7] /\ rcv stalebreak_final 2 = [] /\ rcv stalebreak_final 0 = [7].
+Proof.
+  repeat split; try (vm_compute; reflexivity); try (vm_compute; tauto).
+  - intros e I. destruct e; try discriminate I; try reflexivity.
+    all: try (destruct k as [|[|[|[|k]]]]; reflexivity).
+    all: try (destruct w as [|w]; reflexivity).
+    all: try (destruct s as [|[|[|s]]]; reflexivity).
+  - vm_compute. intros [H|[]]. discriminate.
+Qed.
+
+(* with the skip semantics of the model (the Range simply does not yield the deleted key) the same inputs
+   deliver the message to the stayer *)
+Example stale_key_skipped :
+  match run queue_cfg wake_exact init
+    [ECall 0 (OpSub 0); ESubSend 0; ECall 1 (OpSub 1); ESubSend 1; ECall 2 (OpSub 2); ESubSend 2;
+     ECall 3 (OpPub 7); EPub 3; ELoopPush; ETake 0; ERangeNext 0 0;
+     ECall 1 (OpUnsub 1); EUnsubSend 1; ESend 0 0; ERangeNext 0 2; ESend 0 2; ERangeEnd 0; EEnd 0; EPark 0] with
+  | Some st => rcv st 0 = [7] /\ rcv st 1 = [] /\ rcv st 2 = [7]
+  | None => False
+  end.
+Proof. vm_compute. auto. Qed.
+
+(* ---------- an API call that leaves through its ctx.Done arm has no effect on the broker
+   (cf. lo_cancel_no_effect): only the caller's own program counter (and the ghost `created`) change *)
+Definition same_broker (a b : state) : Prop :=
+  live a = live b /\ loop a = loop b /\ subs a = subs b /\ subq a = subq b /\ unsubq a = unsubq b /\
+  dist a = dist b /\ wk a = wk b /\ ch a = ch b /\ rcv a = rcv b /\ owed a = owed b /\ acc a = acc b.
+
+Lemma cancelled_call_no_effect : forall c wake st k st',
+  step c wake st (ECallerAbort k) = Some st' -> same_broker st st'.
+Proof.
+  intros c wake st k st' H. unfold step in H. destruct (cctx st k); [discriminate|].
+  destruct (call st k); inv H; repeat split.
+Qed.
+
+Lemma dead_ctx_subscribe_no_effect : forall c wake st k s st',
+  cctx st k = false -> step c wake st (ECall k (OpSub s)) = Some st' ->
+  same_broker st st' /\ call st' k = call st k.
+Proof.
+  intros c wake st k s st' D H. unfold step in H. destruct (call st k) eqn:E; try discriminate.
+  destruct (memb s (created st)); [discriminate|]. rewrite D in H. inv H. simpl. rewrite E. repeat split.
+Qed.
